@@ -14,7 +14,7 @@ use serde_json::json;
 pub static DEF: PropDef = PropDef {
     id: "C09",
     level: "exploration",
-    total: |t| t.pick(48, 1600),
+    total: |t| t.pick(1152, 80000),
     run,
     rule: "table histories of add/remove/add_direct/remove_direct/add_cidr/remove_cidr over networks of every mask length (nested chains, siblings, duplicates, /0 and /32), after every op the real IpTable and a list model are probed at id-1,id,id+1,bcast-1,bcast,bcast+1 of every network ever inserted plus uniform addresses, and iter() order is checked; plus subnet arithmetic (new/id/broadcast/contains/range/overlaps/TryFrom<Range>/from_bitcount/try_from/count_ones/cidr) against u64 interval arithmetic for all 33 mask lengths incl. all 33x33 nested/disjoint pairs. Non-trivial history = holds >=3 nested prefixes at some point and performs >=1 removal; distinct by op-sequence hash.",
     assumptions: &["u64 interval arithmetic written in the harness is the reference for network membership"],
